@@ -11,6 +11,9 @@ structure GoodT (s : St) (g : Gen) : Prop where
   noexc : s.exception = false
   rem : ∀ i ∈ g.remaining, (getTrk s i).status = .done ∧ (getTrk s i).result = .vals (getTrk s i).items
   nodup : g.remaining.Nodup
+  hung : s.hung = false
+  noiter : ¬ (0 ≤ s.spec.iterfail ∧ s.spec.iterfail ≤ s.spec.n)
+  stale : AllStale s
 
 /-- What the tail loop is still going to yield. -/
 def restT (s : St) (g : Gen) : List Nat := g.buf ++ (g.remaining.map (fun i => (getTrk s i).items)).flatten
@@ -18,9 +21,9 @@ def restT (s : St) (g : Gen) : List Nat := g.buf ++ (g.remaining.map (fun i => (
 def TLPost (s : St) (g : Gen) : St × Gen × Out → Prop
   | (s', g', .value v) => g'.phase = .tail ∧ GoodT s' g' ∧ restT s g = v :: restT s' g' ∧
       g'.remaining.length ≤ g.remaining.length ∧ s'.sched = s.sched ∧ s'.now = s.now ∧ s'.hung = s.hung ∧
-      s'.parked = s.parked
+      s'.parked = s.parked ∧ s'.spec = s.spec ∧ s'.failIds = s.failIds
   | (s', g', .stop) => g'.phase = .done ∧ Idle s' ∧ Clean s' ∧ s'.exception = false ∧ restT s g = [] ∧
-      s'.sched = s.sched ∧ s'.now = s.now ∧ s'.hung = s.hung ∧ s'.parked = s.parked
+      s'.sched = s.sched ∧ s'.now = s.now ∧ s'.hung = s.hung ∧ s'.parked = s.parked ∧ s'.failIds = s.failIds
   | (_, _, .raise _) => False
   | (_, _, .hang) => False
 
@@ -35,14 +38,15 @@ theorem tailLoop_spec : ∀ (fuel : Nat) (s : St) (g : Gen), GoodT s g → g.rem
     cases hb : g.buf with
     | cons v r =>
       simp only
-      refine ⟨rfl, ⟨hg.idle, hg.clean, hg.noexc, hg.rem, hg.nodup⟩, ?_, Nat.le_refl _, rfl, rfl, rfl, rfl⟩
+      refine ⟨rfl, ⟨hg.idle, hg.clean, hg.noexc, hg.rem, hg.nodup, hg.hung, hg.noiter, hg.stale⟩, ?_, Nat.le_refl _,
+        rfl, rfl, rfl, rfl, rfl, rfl⟩
       simp [restT, hb]
     | nil =>
       simp only
       cases hr : g.remaining with
       | nil =>
         simp only
-        exact ⟨rfl, hg.idle, hg.clean, hg.noexc, by simp [restT, hb, hr], rfl, rfl, rfl, rfl⟩
+        exact ⟨rfl, hg.idle, hg.clean, hg.noexc, by simp [restT, hb, hr], rfl, rfl, rfl, rfl, rfl⟩
       | cons i rest =>
         simp only
         obtain ⟨hd, hres⟩ := hg.rem i (by rw [hr]; simp)
@@ -54,7 +58,8 @@ theorem tailLoop_spec : ∀ (fuel : Nat) (s : St) (g : Gen), GoodT s g → g.rem
         have hg' : GoodT (setTrk s i { getTrk s i with result := .none })
             { g with buf := (getTrk s i).items, remaining := rest } := by
           refine ⟨⟨hg.idle.running, hg.idle.jobs, hg.idle.jobsSet, ?_, ?_, hg.idle.parked_nodup⟩,
-            ⟨hg.clean.running, hg.clean.jobs, hg.clean.jobsSet, hg.clean.calling⟩, hg.noexc, ?_, hnd.2⟩
+            ⟨hg.clean.running, hg.clean.jobs, hg.clean.jobsSet, hg.clean.calling⟩, hg.noexc, ?_, hnd.2, hg.hung,
+            hg.noiter, ?_⟩
           · intro j
             have := hg.idle.callId_le j
             rw [hgs]; show _ ≤ s.callCtr; grind
@@ -63,6 +68,9 @@ theorem tailLoop_spec : ∀ (fuel : Nat) (s : St) (g : Gen), GoodT s g → g.rem
             have hji : i ≠ j := fun e => hnd.1 (e ▸ hj)
             rw [hgs]; simp only [hji, false_and, if_false]
             exact hg.rem j (by rw [hr]; simp [hj])
+          · intro j hj
+            have := hg.stale j hj
+            rw [hgs]; show _ ≠ s.callId; grind
         have := ih _ _ hg' (by simp only; rw [hr] at hf; simp only [List.length_cons] at hf; omega)
         generalize tailLoop fuel (setTrk s i { getTrk s i with result := .none })
           { g with buf := (getTrk s i).items, remaining := rest } = res at this
@@ -76,12 +84,12 @@ theorem tailLoop_spec : ∀ (fuel : Nat) (s : St) (g : Gen), GoodT s g → g.rem
           rw [hgs]; grind
         cases o with
         | value v =>
-          obtain ⟨a1, a2, a3, a4, a5, a6, a7, a8⟩ := this
-          refine ⟨a1, a2, by rw [hrt]; exact a3, ?_, a5, a6, a7, a8⟩
+          obtain ⟨a1, a2, a3, a4, a5, a6, a7, a8, a9, a10⟩ := this
+          refine ⟨a1, a2, by rw [hrt]; exact a3, ?_, a5, a6, a7, a8, a9, a10⟩
           rw [hr]; simp only [List.length_cons] at a4 ⊢; omega
         | stop =>
-          obtain ⟨a1, a2, a3, a4, a5, a6, a7, a8, a9⟩ := this
-          exact ⟨a1, a2, a3, a4, by rw [hrt]; exact a5, a6, a7, a8, a9⟩
+          obtain ⟨a1, a2, a3, a4, a5, a6, a7, a8, a9, a10⟩ := this
+          exact ⟨a1, a2, a3, a4, by rw [hrt]; exact a5, a6, a7, a8, a9, a10⟩
         | raise e => exact this
         | hang => exact this
 
@@ -99,21 +107,25 @@ def boundR (c : Cfg) (s : St) : Nat := meas c s + s.sched.length + 2
 def RLPost (c : Cfg) (t0 : Nat) (s : St) (g : Gen) : St × Gen × Out → Prop
   | (s', g', .value v) =>
       (s.aborting = true → s'.aborting = true) ∧
-      ((g'.phase = .retrieve ∧ GoodR c t0 s' ∧
+      ((g'.phase = .retrieve ∧ GoodR c t0 s' ∧ Frame s s' ∧
           (s'.aborting = false → g.buf ++ restS s = v :: (g'.buf ++ restS s')) ∧
-          (s'.aborting = false → boundR c s' ≤ boundR c s)) ∨
+          (s'.aborting = false → boundR c s' ≤ boundR c s) ∧
+          g'.buf.length + (restS s').length + 1 ≤ g.buf.length + (restS s).length) ∨
        (g'.phase = .tail ∧ GoodT s' g' ∧ s.aborting = false ∧ g.buf ++ restS s = v :: restT s' g' ∧
-          g'.remaining.length + 1 ≤ boundR c s))
+          g'.remaining.length + 1 ≤ boundR c s ∧ s'.spec = s.spec ∧ s'.failIds = s.failIds))
   | (s', g', .stop) => g'.phase = .done ∧ Idle s' ∧ Clean s' ∧ s'.exception = false ∧ s.aborting = false ∧
-      g.buf ++ restS s = []
-  | (s', g', .raise e) => g'.phase = .done ∧ Idle s' ∧ Clean s' ∧ s'.exception = true ∧ Legit c s e
+      g.buf ++ restS s = [] ∧ s'.hung = false ∧ ¬ (0 ≤ s.spec.iterfail ∧ s.spec.iterfail ≤ s.spec.n) ∧
+      s'.failIds = s.failIds
+  | (s', g', .raise e) => g'.phase = .done ∧ Idle s' ∧ Clean s' ∧ s'.exception = true ∧ Legit c s e ∧
+      s'.hung = false ∧ s'.failIds = s.failIds
   | (_, _, .hang) => False
 
 /-- Move the outcome statement from a later loop state back to the state the iteration started from. -/
 theorem RLPost.transfer {c : Cfg} {t0 : Nat} {s s1 : St} {g g1 : Gen} {res : St × Gen × Out}
     (h : RLPost c t0 s1 g1 res) (hf : Frame s s1)
     (hrest : s1.aborting = false → g.buf ++ restS s = g1.buf ++ restS s1)
-    (hb : s1.aborting = false → boundR c s1 ≤ boundR c s) :
+    (hb : s1.aborting = false → boundR c s1 ≤ boundR c s)
+    (hlen : g1.buf.length + (restS s1).length ≤ g.buf.length + (restS s).length) :
     RLPost c t0 s g res := by
   have hna : s1.aborting = false → s.aborting = false := by
     intro h1
@@ -125,23 +137,25 @@ theorem RLPost.transfer {c : Cfg} {t0 : Nat} {s s1 : St} {g g1 : Gen} {res : St 
   | value v =>
     obtain ⟨a1, a2⟩ := h
     refine ⟨fun hx => a1 (hf.abort_mono hx), ?_⟩
-    rcases a2 with ⟨b1, b2, b3, b4⟩ | ⟨b1, b2, b3, b4, b5⟩
+    rcases a2 with ⟨b1, b2, bf, b3, b4, b6⟩ | ⟨b1, b2, b3, b4, b5, b7, b8⟩
     · left
       have hna1 : s'.aborting = false → s1.aborting = false := by
         intro h1
         cases hx : s1.aborting with
         | false => rfl
         | true => rw [a1 hx] at h1; simp at h1
-      exact ⟨b1, b2, fun hx => by rw [hrest (hna1 hx)]; exact b3 hx,
-        fun hx => Nat.le_trans (b4 hx) (hb (hna1 hx))⟩
+      exact ⟨b1, b2, hf.trans bf, fun hx => by rw [hrest (hna1 hx)]; exact b3 hx,
+        fun hx => Nat.le_trans (b4 hx) (hb (hna1 hx)), by omega⟩
     · right
-      exact ⟨b1, b2, hna b3, by rw [hrest b3]; exact b4, Nat.le_trans b5 (hb b3)⟩
+      exact ⟨b1, b2, hna b3, by rw [hrest b3]; exact b4, Nat.le_trans b5 (hb b3), b7.trans hf.spec,
+        b8.trans hf.failIds⟩
   | stop =>
-    obtain ⟨a1, a2, a3, a4, a5, a6⟩ := h
-    exact ⟨a1, a2, a3, a4, hna a5, by rw [hrest a5]; exact a6⟩
+    obtain ⟨a1, a2, a3, a4, a5, a6, a7, a8, a9⟩ := h
+    exact ⟨a1, a2, a3, a4, hna a5, by rw [hrest a5]; exact a6, a7, by rw [← hf.spec]; exact a8,
+      a9.trans hf.failIds⟩
   | raise e =>
-    obtain ⟨a1, a2, a3, a4, a5⟩ := h
-    exact ⟨a1, a2, a3, a4, (Legit_congr hf.failIds hf.base hf.spec e).mp a5⟩
+    obtain ⟨a1, a2, a3, a4, a5, a6, a7⟩ := h
+    exact ⟨a1, a2, a3, a4, (Legit_congr hf.failIds hf.base hf.spec e).mp a5, a6, a7.trans hf.failIds⟩
   | hang => exact h
 
 /-- While the retrieval loop has to wait (and the call is not aborting) some batch of the call is parked. -/
@@ -211,11 +225,14 @@ theorem GoodR.frame {c : Cfg} {t0 : Nat} {s s' : St} (h : GoodR c t0 s)
 /-- The exception leaves the call: `except BaseException` + `finally`. -/
 theorem raise_end {c : Cfg} {t0 : Nat} {s s3 : St} (h : GoodR c t0 s)
     (hg : ∀ j, (getTrk s3 j).callId = (getTrk s j).callId) (hlen : s3.trk.length = s.trk.length)
-    (hctr : s3.callCtr = s.callCtr) (hpk : s3.parked = s.parked) :
-    Idle (handleException c s3) ∧ Clean (handleException c s3) ∧ (handleException c s3).exception = true := by
+    (hctr : s3.callCtr = s.callCtr) (hpk : s3.parked = s.parked) (hhu : s3.hung = s.hung)
+    (hfi : s3.failIds = s.failIds) :
+    Idle (handleException c s3) ∧ Clean (handleException c s3) ∧ (handleException c s3).exception = true ∧
+    (handleException c s3).hung = false ∧ (handleException c s3).failIds = s.failIds := by
   obtain ⟨lg, pk, he, hpk'⟩ := handleException_eq c s3
   rw [he]
-  refine ⟨idle_of_end h.inv.T h.cid hg hlen hctr ?_ rfl rfl rfl, ⟨rfl, rfl, rfl, rfl⟩, rfl⟩
+  refine ⟨idle_of_end h.inv.T h.cid hg hlen hctr ?_ rfl rfl rfl, ⟨rfl, rfl, rfl, rfl⟩, rfl,
+    by show s3.hung = false; rw [hhu]; exact h.hung, hfi⟩
   rcases hpk' with hpk' | hpk'
   · left; show pk = s.parked; rw [hpk', hpk]
   · right; exact hpk'
@@ -235,14 +252,28 @@ theorem rl_exit {c : Cfg} {t0 : Nat} {s : St} {g : Gen} (fuel : Nat) (ho : order
   rw [hfb1, hfb2]
   have hdone := exit_all_done h.inv hna hw
   obtain ⟨p, p1, p2, p3, p4⟩ := h.inv.T.ord_jobs ho
+  have hpost := h.post hna hit
+  have hn : s.srcPos = s.spec.n := (h.inv.S.dead hna hpost.2).1
+  have hnoit : ¬ (0 ≤ s.spec.iterfail ∧ s.spec.iterfail ≤ s.spec.n) := by
+    intro ⟨x, y⟩
+    have h1 := h.inv.S.src_iter x
+    have h2 := (h.inv.S.dead hna hpost.2).2
+    omega
   have hgt : GoodT { s with log := lg, jobs := [], jobsSet := [], running := false, calling := false }
       { g with phase := .tail, remaining := s.jobs } := by
     refine ⟨idle_of_end h.inv.T h.cid (fun _ => rfl) rfl rfl (Or.inl rfl) rfl rfl rfl, ⟨rfl, rfl, rfl, rfl⟩,
-      hexc, hdone, ?_⟩
-    show s.jobs.Nodup
-    rw [p3]; exact List.nodup_range' (step := 1) (by omega)
-  have hpost := h.post hna hit
-  have hn : s.srcPos = s.spec.n := (h.inv.S.dead hna hpost.2).1
+      hexc, hdone, ?_, h.hung, hnoit, ?_⟩
+    · show s.jobs.Nodup
+      rw [p3]; exact List.nodup_range' (step := 1) (by omega)
+    · intro i hi hcid
+      have hcid' : (getTrk s i).callId = s.callId := hcid
+      obtain ⟨i0, i1⟩ := own_of_callId h.inv.T hcid'
+      have hpend : (getTrk s i).status = .pending :=
+        (h.inv.T.parked_pending hna i i0 i1).mpr (Or.inl hi)
+      rcases Nat.lt_or_ge i p with hlt | hge
+      · exact p4 i i0 hlt hpend
+      · have hmem : i ∈ s.jobs := by rw [p3, List.mem_range'_1]; omega
+        rw [(hdone i hmem).1] at hpend; cases hpend
   have hrest : g.buf ++ restS s =
       restT { s with log := lg, jobs := [], jobsSet := [], running := false, calling := false }
         { g with phase := .tail, remaining := s.jobs } := by
@@ -256,13 +287,14 @@ theorem rl_exit {c : Cfg} {t0 : Nat} {s : St} {g : Gen} (fuel : Nat) (ho : order
   obtain ⟨s', g', o⟩ := res
   cases o with
   | value v =>
-    obtain ⟨a1, a2, a3, a4, _⟩ := ht
-    refine ⟨fun hx => by rw [hna] at hx; simp at hx, Or.inr ⟨a1, a2, hna, by rw [hrest]; exact a3, ?_⟩⟩
-    simp only [boundR, meas, unpopped, ho, if_true] at a4 ⊢
-    omega
+    obtain ⟨a1, a2, a3, a4, _, _, _, _, hsp, hfi⟩ := ht
+    refine ⟨fun hx => by rw [hna] at hx; simp at hx, Or.inr ⟨a1, a2, hna, by rw [hrest]; exact a3, ?_, ?_, hfi⟩⟩
+    · simp only [boundR, meas, unpopped, ho, if_true] at a4 ⊢
+      omega
+    · exact hsp
   | stop =>
-    obtain ⟨a1, a2, a3, a4, a5, _⟩ := ht
-    exact ⟨a1, a2, a3, a4, hna, by rw [hrest]; exact a5⟩
+    obtain ⟨a1, a2, a3, a4, a5, _, _, a8, _, a10⟩ := ht
+    exact ⟨a1, a2, a3, a4, hna, by rw [hrest]; exact a5, by rw [a8]; exact h.hung, hnoit, a10⟩
   | raise e => exact ht.elim
   | hang => exact ht.elim
 
@@ -287,8 +319,8 @@ theorem rl_abort {c : Cfg} {t0 : Nat} {s : St} {g : Gen} (fuel : Nat)
   have : getResult s i = (s3, .error e) := hres
   rw [this]
   simp only
-  obtain ⟨x, y, z⟩ := raise_end (c := c) h hcid hlen (by rw [hs3]) (by rw [hs3])
-  exact ⟨rfl, x, y, z, hleg⟩
+  obtain ⟨x, y, z, w, u⟩ := raise_end (c := c) h hcid hlen (by rw [hs3]) (by rw [hs3]) (by rw [hs3]) (by rw [hs3])
+  exact ⟨rfl, x, y, z, hleg, w, u⟩
 
 /-- The `time.sleep` of the retrieval loop (a hook point), from a state in which some batch is parked. -/
 theorem rl_sleep {c : Cfg} (hc : CfgOK c) {t0 : Nat} {s : St} (ho : ordered c = true) (h : GoodR c t0 s)
@@ -298,14 +330,15 @@ theorem rl_sleep {c : Cfg} (hc : CfgOK c) {t0 : Nat} {s : St} (ho : ordered c = 
     ((hook c true { s with now := s.now + 1 }).aborting = false →
       restS (hook c true { s with now := s.now + 1 }) = restS s) ∧
     ((hook c true { s with now := s.now + 1 }).aborting = false →
-      boundR c (hook c true { s with now := s.now + 1 }) + 1 ≤ boundR c s) := by
+      boundR c (hook c true { s with now := s.now + 1 }) + 1 ≤ boundR c s) ∧
+    (restS (hook c true { s with now := s.now + 1 })).length ≤ (restS s).length := by
   have h0 : GoodR c t0 { s with now := s.now + 1 } :=
     h.frame rfl rfl rfl rfl rfl rfl rfl rfl rfl rfl rfl rfl rfl rfl ⟨rfl, rfl, rfl, rfl, rfl, rfl, rfl, rfl, id⟩
   have hk := hook_spec hc true h0.inv
   have hf := hk.later.frame
   refine ⟨⟨hk.inv, hk.later.post h0.post, ?_, ?_⟩,
     ⟨hf.base, hf.spec, hf.callId, hf.callCtr, hf.failIds, hf.managed, hf.running, hf.calling, hf.abort_mono⟩,
-    fun ha => hk.later.restS ho ha, ?_⟩
+    fun ha => hk.later.restS ho ha, ?_, hk.later.rlen ho⟩
   · rw [hk.hung_sleep (Or.inl hpk)]; exact h.hung
   · rw [hf.callId, hf.callCtr]; exact h.cid
   · intro ha
@@ -332,11 +365,14 @@ theorem retrieveLoop_spec {c : Cfg} (hc : CfgOK c) {t0 : Nat} (ho : ordered c = 
     cases gbuf with
     | cons v r =>
       simp only
-      refine ⟨fun hx => hx, Or.inl ⟨rfl, ?_, ?_, ?_⟩⟩
+      refine ⟨fun hx => hx, Or.inl ⟨rfl, ?_, ⟨rfl, rfl, rfl, rfl, rfl, rfl, rfl, rfl, id⟩, ?_, ?_, ?_⟩⟩
       · exact h.frame rfl rfl rfl rfl rfl rfl rfl rfl rfl rfl rfl rfl rfl rfl
           ⟨rfl, rfl, rfl, rfl, rfl, rfl, rfl, rfl, id⟩
       · intro _; simp only [List.cons_append]; rfl
       · intro _; exact Nat.le_refl _
+      · simp only [List.length_cons]
+        show r.length + (restS s).length + 1 ≤ _
+        omega
     | nil =>
       simp only
       have hb : ({ phase := gph, buf := [], remaining := grem, tcj := gtcj } : Gen).buf = [] := rfl
@@ -367,11 +403,12 @@ theorem retrieveLoop_spec {c : Cfg} (hc : CfgOK c) {t0 : Nat} (ho : ordered c = 
               then (hook c true { s0 with now := s0.now + 1 }, { phase := gph, buf := [], remaining := grem, tcj := gtcj }, Out.hang)
               else retrieveLoop c fuel (hook c true { s0 with now := s0.now + 1 }) { phase := gph, buf := [], remaining := grem, tcj := gtcj }) := by
         intro s0 h0 hf0 hpk0 hna0 hr0 hb0
-        obtain ⟨hg1, hf1, hr1, hb1⟩ := rl_sleep hc ho h0 hpk0
+        obtain ⟨hg1, hf1, hr1, hb1, hl1⟩ := rl_sleep hc ho h0 hpk0
         rw [if_neg (by rw [hg1.hung]; simp)]
         have := ih _ { phase := gph, buf := [], remaining := grem, tcj := gtcj } hg1
           (by simp only [boundR] at hbound hb0; omega) (fun ha => by have := hb1 ha; omega)
         exact this.transfer (hf0.trans hf1) (fun ha => by rw [hr1 ha, hr0]) (fun ha => by have := hb1 ha; omega)
+          (by rw [← hr0]; simp only [List.length_nil]; omega)
       cases hj : s.jobs with
       | nil =>
         simp only
@@ -409,7 +446,7 @@ theorem retrieveLoop_spec {c : Cfg} (hc : CfgOK c) {t0 : Nat} (ho : ordered c = 
           subst hs1
           have : ((Status.done == Status.pending) = true) = False := by simp
           simp only [this, if_false]
-          obtain ⟨s3, hres, hi3, hp3, hr3, hm3, hf3, hna3, hsc3, hh3, _, _, _, _⟩ :=
+          obtain ⟨s3, hres, hi3, hp3, hr3, hm3, hf3, hna3, hsc3, hh3, _, _, _, _, _⟩ :=
             pop_done ho h.inv hna hj gs3.symm
           rw [hres]
           simp only
@@ -420,6 +457,7 @@ theorem retrieveLoop_spec {c : Cfg} (hc : CfgOK c) {t0 : Nat} (ho : ordered c = 
             (fun _ => by simp only [boundR, hsc3] at hbound ⊢; omega)
           exact this.transfer hf3 (fun _ => by simp only [List.nil_append]; exact hr3)
             (fun _ => by simp only [boundR, hsc3]; omega)
+            (by rw [hr3]; simp only [List.length_nil, List.length_append]; omega)
         | error =>
           have : ((Status.error == Status.pending) = true) = False := by simp
           simp only [this, if_false]
@@ -428,7 +466,9 @@ theorem retrieveLoop_spec {c : Cfg} (hc : CfgOK c) {t0 : Nat} (ho : ordered c = 
             pop_error (rest := rest) gs1 (by rw [hj1]; simp) gs3.symm
           rw [hres]
           simp only
-          obtain ⟨x, y, z⟩ := raise_end (c := c) hg1 hcid hlen (by rw [hs3]) (by rw [hs3])
-          exact ⟨rfl, x, y, z, (Legit_congr gs2.frame.failIds gs2.frame.base gs2.frame.spec e).mp hleg⟩
+          obtain ⟨x, y, z, w, u⟩ := raise_end (c := c) hg1 hcid hlen (by rw [hs3]) (by rw [hs3]) (by rw [hs3])
+            (by rw [hs3])
+          exact ⟨rfl, x, y, z, (Legit_congr gs2.frame.failIds gs2.frame.base gs2.frame.spec e).mp hleg, w,
+            u.trans gs2.frame.failIds⟩
 
 end JoblibModel.ParallelProto
